@@ -423,6 +423,9 @@ func (s *sched) touch(o *objState) *objState {
 func (s *sched) point(what string, o *objState, pred func() bool) {
 	me := s.cur
 	me.pred = pred
+	if s.cfg.Trace {
+		what += " @" + callSite()
+	}
 	me.what = what
 	me.obj = o
 	s.schedule(me)
@@ -494,6 +497,31 @@ func spawn(name string, lib bool, f func()) {
 	t.what = "start"
 	go s.runThread(t, f)
 	s.point("go "+name, nil, nil)
+}
+
+// callSite names the first frame outside the shim (trace mode only).
+func callSite() string {
+	pc := make([]uintptr, 12)
+	n := runtime.Callers(3, pc)
+	fr := runtime.CallersFrames(pc[:n])
+	for {
+		f, more := fr.Next()
+		if !strings.Contains(f.Function, "verif/shim") {
+			file := f.File
+			if i := strings.LastIndex(file, "/"); i >= 0 {
+				file = file[i+1:]
+			}
+			fn := f.Function
+			if i := strings.LastIndex(fn, "."); i >= 0 {
+				fn = fn[i+1:]
+			}
+			return fmt.Sprintf("%s:%d(%s)", file, f.Line, fn)
+		}
+		if !more {
+			break
+		}
+	}
+	return "?"
 }
 
 func callerName() string {
